@@ -327,6 +327,13 @@ func (w *c05World) ntlmExchange(scheme, user, pass string, sameConn bool, type3T
 
 // whoIs completes HS,TC,TA on an upgraded connection and asks for a channel to userA's host, then on failure reports.
 func (w *c05World) whoIs(conn net.Conn, br *bufio.Reader) string {
+	return w.askHost(conn, br, userA)
+}
+
+// askHost completes HS,TC,TA on an upgraded connection and asks for a channel to ip:bport; returns ip when the
+// channel was created and the backend reached, otherwise a description.
+func (w *c05World) askHost(conn net.Conn, br *bufio.Reader, ip string) string {
+	userA := ip
 	tc := &TunnelClient{Kind: "ws"}
 	buf := make([]byte, 1<<16)
 	send := func(p []byte) (uint32, bool) {
@@ -495,6 +502,16 @@ func c05(env *Env, rep *Report) {
 			}
 		}
 		distinct += w.kerberos(viol, rep)
+		distinct += w.otherHost(viol, rep)
+		// NTLM: after a completed exchange (on a plain GET, which leaves the connection open) a second
+		// authenticate message on the same connection names another user with the first user's proof
+		if cfg.has("ntlm") {
+			distinct++
+			rep.add("executions", 1)
+			if reached, detail := w.ntlmReuse(); reached {
+				viol("handler-reached-with-unconfirmed-credentials/ntlm-second-authenticate-after-success", detail)
+			}
+		}
 		if cr := w.gw.Crashed(); cr != "" {
 			viol("panic-in-gateway", cr)
 		}
@@ -505,4 +522,127 @@ func c05(env *Env, rep *Report) {
 	}
 	rep.add("distinct", int64(distinct))
 	rep.add("states", int64(distinct))
+}
+
+// authedWS opens an authenticated websocket tunnel as userA with whatever scheme the configuration offers.
+func (w *c05World) authedWS() (net.Conn, *bufio.Reader, string) {
+	try := func(hdr string) (net.Conn, *bufio.Reader, bool) {
+		c, err := w.gw.Dial()
+		if err != nil {
+			return nil, nil, false
+		}
+		c.SetDeadline(time.Now().Add(15 * time.Second))
+		raw, _ := methodRequest("ws", []string{hdr})
+		c.Write([]byte(raw))
+		br := bufio.NewReader(c)
+		if r := ReadResponse(br); r.Status == 101 {
+			return c, br, true
+		}
+		c.Close()
+		return nil, nil, false
+	}
+	if w.cfg.has("local") {
+		if c, br, ok := try(basicHdr(userA, passA)); ok {
+			return c, br, "basic"
+		}
+	}
+	if w.cfg.has("kerberos") {
+		now := time.Now().UTC()
+		if hdr, err := krbNegotiate(userA, gwKeytab(), now.Add(-time.Minute), now.Add(time.Hour)); err == nil {
+			if c, br, ok := try(hdr); ok {
+				return c, br, "kerberos"
+			}
+		}
+	}
+	if w.cfg.has("ntlm") {
+		c, err := w.gw.Dial()
+		if err == nil {
+			c.SetDeadline(time.Now().Add(15 * time.Second))
+			br := bufio.NewReader(c)
+			raw, _ := methodRequest("ws", []string{"Authorization: NTLM " + base64.StdEncoding.EncodeToString(ntlmc.Negotiate())})
+			c.Write([]byte(raw))
+			r := ReadResponse(br)
+			for _, v := range r.Header.Values("Www-Authenticate") {
+				if strings.HasPrefix(v, "NTLM ") {
+					if b, err := base64.StdEncoding.DecodeString(strings.TrimPrefix(v, "NTLM ")); err == nil {
+						if ch, err := ntlmc.ParseChallenge(b); err == nil {
+							raw, _ = methodRequest("ws", []string{"Authorization: NTLM " + base64.StdEncoding.EncodeToString(ntlmc.Authenticate(ntlmc.AuthParams{User: userA, Password: passA, ServerChallenge: ch.ServerChallenge, TargetInfo: ch.TargetInfo}))})
+							c.Write([]byte(raw))
+							if r2 := ReadResponse(br); r2.Status == 101 {
+								return c, br, "ntlm"
+							}
+						}
+					}
+				}
+			}
+			c.Close()
+		}
+	}
+	return nil, nil, ""
+}
+
+// otherHost: a confirmed user may reach its own host entry and nothing else (host policy is wired for every scheme).
+func (w *c05World) otherHost(viol func(kind, detail string), rep *Report) int {
+	if w.cfg.has("openid") {
+		return 0
+	}
+	n := 0
+	for _, target := range []string{userB, "127.0.0.1"} {
+		c, br, scheme := w.authedWS()
+		if c == nil {
+			viol("cannot-open-authenticated-tunnel", w.cfg.String())
+			return n
+		}
+		n++
+		rep.add("executions", 1)
+		before := w.hits[userB]
+		got := w.askHost(c, br, target)
+		c.Close()
+		time.Sleep(20 * time.Millisecond)
+		rep.outcome("other-host " + scheme + " " + target + " -> " + got)
+		if got == target || w.hits[userB] != before {
+			viol("confirmed-user-reaches-a-host-outside-its-policy/"+scheme, fmt.Sprintf("user %s authenticated with %s asked for %s:%d: %s (hits on %s: %d)", userA, scheme, target, w.bport, got, userB, w.hits[userB]-before))
+		}
+	}
+	return n
+}
+
+// ntlmReuse: type 1, type 3 (user A, right password) on a GET, then on the same connection a websocket
+// upgrade with a type 3 naming user B but keyed with user A's password over the same challenge.
+func (w *c05World) ntlmReuse() (bool, string) {
+	c, err := w.gw.Dial()
+	if err != nil {
+		return false, "dial"
+	}
+	defer c.Close()
+	c.SetDeadline(time.Now().Add(15 * time.Second))
+	br := bufio.NewReader(c)
+	get := func(hdr string) RawResponse {
+		c.Write([]byte(BuildRequest("GET", "/remoteDesktopGateway/", []string{hdr})))
+		return ReadResponse(br)
+	}
+	r := get("Authorization: NTLM " + base64.StdEncoding.EncodeToString(ntlmc.Negotiate()))
+	var ch *ntlmc.Challenge
+	for _, v := range r.Header.Values("Www-Authenticate") {
+		if strings.HasPrefix(v, "NTLM ") {
+			if b, err := base64.StdEncoding.DecodeString(strings.TrimPrefix(v, "NTLM ")); err == nil {
+				ch, _ = ntlmc.ParseChallenge(b)
+			}
+		}
+	}
+	if ch == nil {
+		return false, "no challenge"
+	}
+	r = get("Authorization: NTLM " + base64.StdEncoding.EncodeToString(ntlmc.Authenticate(ntlmc.AuthParams{User: userA, Password: passA, ServerChallenge: ch.ServerChallenge, TargetInfo: ch.TargetInfo})))
+	if r.Status != 200 {
+		return false, fmt.Sprintf("honest exchange on GET answered %d", r.Status)
+	}
+	forged := "Authorization: NTLM " + base64.StdEncoding.EncodeToString(ntlmc.Authenticate(ntlmc.AuthParams{User: userB, KeyUser: userA, Password: passA, ServerChallenge: ch.ServerChallenge, TargetInfo: ch.TargetInfo}))
+	raw, _ := methodRequest("ws", []string{forged})
+	c.Write([]byte(raw))
+	r = ReadResponse(br)
+	if r.Status == 101 {
+		return true, "forged authenticate message naming " + userB + " reached the handler"
+	}
+	return false, fmt.Sprintf("status %d", r.Status)
 }
